@@ -13,6 +13,18 @@ pub fn wrappers() -> Vec<K> {
 
 /// window length: biased to 1..9, otherwise up to n_max
 pub fn gen_n(r: &mut Rng, n_max: usize) -> usize {
+    // 2% large windows where the caller allows them: round sizes where a narrow counter type would wrap
+    if n_max > 64 && r.chance(0.02) {
+        let n = match r.below(10) {
+            0 => 255,
+            1 => 256,
+            2 => 257,
+            3 => 1000,
+            _ => r.range(65, 300),
+        };
+        return n.min(n_max);
+    }
+    let n_max = n_max.min(64);
     let x = r.unit();
     let n = if x < 0.6 {
         r.range(1, 9)
@@ -88,7 +100,7 @@ pub struct TreeCfg {
 
 impl TreeCfg {
     pub fn full(max_depth: usize, leaf: LeafMode) -> TreeCfg {
-        TreeCfg { max_depth, n_max: 64, p_binary: 0.15, leaf, p_stall: 0.4, p_inner_stall: 0.05, kinds: wrappers(), allow_const: true }
+        TreeCfg { max_depth, n_max: 1000, p_binary: 0.15, leaf, p_stall: 0.4, p_inner_stall: 0.05, kinds: wrappers(), allow_const: true }
     }
 }
 
@@ -168,7 +180,8 @@ pub fn gen_tree(r: &mut Rng, cfg: &TreeCfg, depth_left: usize, parent_n: usize, 
 
 /// a node of kind k with random parameters and a generated child subtree
 pub fn gen_node(r: &mut Rng, cfg: &TreeCfg, k: K, depth_left: usize, in_ma: bool, need_pos: bool) -> Spec {
-    let n = if k.has_n() { gen_n(r, cfg.n_max) } else { 0 };
+    // NET is quadratic in its window: keep it at 64
+    let n = if k.has_n() { gen_n(r, if k == K::Net { cfg.n_max.min(64) } else { cfg.n_max }) } else { 0 };
     let child_pos = need_pos || matches!(k, K::Drawdown | K::LnReturn);
     // continue downwards with some probability, otherwise a leaf
     let d = if depth_left > 1 && r.chance(0.75) { depth_left - 1 } else { 0 };
